@@ -61,3 +61,32 @@ package ast
 //@ func (a Atom) String()
 //@   pure
 //@   trusted
+
+// ---- C09: escaping -------------------------------------------------------------------------------------
+
+//@ func hexdigit(nibble)
+//@   mode bv
+//@   pure
+//@   requires nibble < 16
+//@   ensures (48 <= result && result <= 57) || (97 <= result && result <= 102)
+//@   ensures nibble < 10 ==> result == 48 + nibble
+//@   ensures nibble >= 10 ==> result == 87 + nibble
+
+//@ func unhex(b)
+//@   mode bv
+//@   ensures 48 <= b && b <= 57 ==> ret1 && ret0 == int32(b) - 48
+//@   ensures 97 <= b && b <= 102 ==> ret1 && ret0 == int32(b) - 87
+//@   ensures 65 <= b && b <= 70 ==> ret1 && ret0 == int32(b) - 55
+//@   ensures !((48 <= b && b <= 57) || (97 <= b && b <= 102) || (65 <= b && b <= 70)) ==> !ret1
+
+//@ lemma hexRoundTrip(n uint8): n < 16 ==> ret1(unhex(hexdigit(n))) && ret0(unhex(hexdigit(n))) == int32(n)
+//@   mode bv
+
+// The text Escape produces for a string (not byte-string) constant is printable ASCII: no raw control character
+// (a raw carriage return or newline would be rewritten when the text is read back), no raw non-ASCII byte.
+//@ spec func printable(b []byte, n int) bool = forall k int :: 0 <= k && k < n ==> 32 <= b[k] && b[k] < 127
+//@ func Escape(str, isBytes)
+//@   mode bv
+//@   ensures !isBytes && err == nil ==> (forall k int :: 0 <= k && k < len(result) ==> 32 <= result[k] && result[k] < 127)
+//@   loop 1 invariant !isBytes ==> printable(buf, len(buf))
+//@   loop 2 invariant !isBytes && printable(buf, len(buf)) && -1 <= j && j <= 2
